@@ -27,6 +27,7 @@ ASSUME = ["solar position reference: Astronomical Almanac low-precision formulas
           "'absent' TLE data = no TLE file for the spacecraft in the configured directory; an unset TLE directory raises RuntimeError (configuration error)"]
 TB = ["coqc 8.16.1 kernel; Reals axioms; Flocq's Zfloor", "translator/gen.py (Gen_Angles: AST of get_angles, get_sat_angles, both look functions, "
       "centered_modulus, get_absolute_azimuth_angle_diff - the modelled bodies are pinned textually by C15_source_shape)",
+      "correspondence check_fold (the rational mirror proved equal to the real-valued model, C15_executable_mirror) evaluated in Coq",
       "astronomy (pyorbital.astronomy) and orbit are oracles of the model; validated numerically by (B) and (C)"]
 
 
@@ -98,10 +99,13 @@ def relaz_q(a, b):
 
 def part_a(res, rng, tier, seed):
     from pygac.utils import centered_modulus, get_absolute_azimuth_angle_diff
+    coq_fold, coq_rel = [], []
     vals = [Fraction(k, 2) for k in range(-1440, 1441)] + [Fraction(rng.randrange(-10 ** 7, 10 ** 7), 1024) for _ in range(400)]
     arr = np.array([float(v) for v in vals])
     got = centered_modulus(arr.copy(), 360.0)
     for v, g in zip(vals, got):
+        if len(coq_fold) < 1500 and not np.isnan(g):
+            coq_fold.append("(%s, %s)" % (common.qlit(v), common.qlit(Fraction(float(g)))))
         if Fraction(float(g)) != fold_q(v) or not (-180 < g <= 180):
             res.violations.append(("centered_modulus does not fold into (-180, 180] by whole turns", dict(value=float(v), returned=float(g), expected=float(fold_q(v)))))
             break
@@ -109,11 +113,19 @@ def part_a(res, rng, tier, seed):
     b = np.array([float(vals[rng.randrange(len(vals))]) for _ in range(3000)] + [-170.0, 180.0, -180.0, 360.0])
     got = get_absolute_azimuth_angle_diff(a.copy(), b.copy())
     for x, y, g in zip(a, b, got):
+        if len(coq_rel) < 1000 and not np.isnan(g):
+            coq_rel.append("(%s, %s, %s)" % (common.qlit(Fraction(float(x))), common.qlit(Fraction(float(y))), common.qlit(Fraction(float(g)))))
         e = relaz_q(Fraction(x), Fraction(y))
         if Fraction(float(g)) != e:
             res.violations.append(("get_absolute_azimuth_angle_diff is not |a-b| folded into [0, 180]", dict(a=float(x), b=float(y), returned=float(g), expected=float(e))))
             break
     res.add_case(("fold", len(vals)), True, dict(values=len(vals), pairs=len(a)))
+    cases = ["([%s], [%s])" % ("; ".join(coq_fold[i:i + 250]), "; ".join(coq_rel[i:i + 250])) for i in range(0, max(len(coq_fold), len(coq_rel)), 250)]
+    failing, _ = common.coq_eval("c15", "From PV Require Import M_Angles.", "check_fold", cases, shard=1,
+                                 ctype="list (Q * Q) * list (Q * Q * Q)")
+    res.notes["coq_fold_values"] = len(coq_fold) + len(coq_rel)
+    for kind, idx, msg in failing:
+        res.no_input.append("corr_C15: " + (msg[-300:] if kind == "error" else "the folding model (cmodQ / relazQ) and pygac.utils disagree in block %d" % idx))
 
 
 def check_common(res, ctx, r, ang, lons, lats, mask, times_ms, tle_state):
@@ -240,9 +252,31 @@ def part_c(res, rng, tier, seed, d):
         times_us = [t0 * 1000 + int(round(i * period_us)) for i in range(n)]
         tie_pos = [23.5 + 40 * k for k in range(51)] if res_ == "gac" else [24.0 + 40 * k for k in range(51)]
         ctx = dict(fmt=fmt, lines=n, start=str(start), seed=seed, orbit="TLE noaa16")
-        for tle_state, kw in (("available", dict(tle_dir=tle_dir, tle_name=tle_name, tle_thresh=40000)),
-                              ("too old", dict(tle_dir=tle_dir, tle_name=tle_name, tle_thresh=1e-6)),
-                              ("absent", dict(tle_dir=d, tle_name="no_such_%(satname)s.txt"))):
+        # an element set several days old (inside the default limit of 7 days): only the nearest genuine set, dated back
+        aged_dir = None
+        try:
+            with warnings.catch_warnings():
+                warnings.simplefilter("ignore")
+                probe1 = impl.open_reader(fmt, l1b.build_file(fmt, sc, tg.dt_of(t0), l1b.default_lines(fmt, 2, tg.dt_of(t0))), tle_dir=tle_dir,
+                                          tle_name=tle_name, tle_thresh=40000)
+                l1, l2 = probe1.get_tle_lines()
+            age = rng.choice([3.5, 4.5, 5.5, 6.5]) * rng.choice([-1, 1])
+            ep = tg.dt_of(t0) - datetime.timedelta(days=age)
+            epoch = "%02d%012.8f" % (ep.year % 100, (ep - datetime.datetime(ep.year, 1, 1)).total_seconds() / 86400.0 + 1)
+            body = (l1[:18] + epoch + l1[32:]).rstrip("\n")[:68]
+            l1b_ = body + str((sum(int(ch) for ch in body if ch.isdigit()) + body.count("-")) % 10)
+            aged_dir = __import__("os").path.join(d, "aged_%d" % rng.randrange(10 ** 9))
+            __import__("os").makedirs(aged_dir)
+            for name in ("noaa16", "noaa14"):
+                open(__import__("os").path.join(aged_dir, "TLE_%s.txt" % name), "w").write(l1b_.rstrip("\n") + "\n" + l2.rstrip("\n") + "\n")
+        except Exception:  # noqa
+            aged_dir = None
+        states = [("available", dict(tle_dir=tle_dir, tle_name=tle_name, tle_thresh=40000))]
+        if aged_dir:
+            states.append(("%.1f days old" % abs(age), dict(tle_dir=aged_dir, tle_name="TLE_%(satname)s.txt")))
+        for tle_state, kw in states + [(
+                              "too old", dict(tle_dir=tle_dir, tle_name=tle_name, tle_thresh=1e-6)),
+                              ("absent", dict(tle_dir=d, tle_name="no_such_%(satname)s.txt"))]:
             ctx2 = dict(ctx, tle=tle_state)
             try:
                 with warnings.catch_warnings():
@@ -259,8 +293,8 @@ def part_c(res, rng, tier, seed, d):
                     mask = np.array(r.mask)
             except Exception as e:  # noqa
                 import traceback
-                res.violations.append(("get_angles raised %r with TLE data %s (angles must still be returned)" % (e, tle_state) if tle_state != "available"
-                                       else "get_angles raised %r" % (e,), dict(ctx2, traceback=traceback.format_exc()[-400:])))
+                res.violations.append(("get_angles raised %r with TLE data %s (angles must still be returned)" % (e, tle_state) if tle_state in ("too old", "absent")
+                                       else "get_angles raised %r (TLE data %s)" % (e, tle_state), dict(ctx2, traceback=traceback.format_exc()[-400:])))
                 continue
             res.traces += 1
             check_common(res, ctx2, r, ang, lons, lats, mask, times_ms, tle_state)
@@ -286,6 +320,8 @@ def part_c(res, rng, tier, seed, d):
                     if nadir > 0.5 or not (66.0 <= edge and edge_max <= 70.5):
                         res.violations.append(("satellite zenith is not about 0 at nadir rising to about 68 degrees at the swath edge",
                                                dict(ctx2, nadir=nadir, edge=[edge, edge_max])))
+            elif "days old" in tle_state:
+                pass     # the dated-back element set is not consistent with the geolocation: only shapes, ranges and the sun are checked
             else:
                 v = sat_zen[~np.isnan(sat_zen)]
                 if v.size and not (np.all(v >= -1e-6) and np.all(v <= 90.0 + 1e-6)):
